@@ -30,7 +30,8 @@ func init() {
 				for len(d) < 12 {
 					d = "0" + d
 				}
-				return strings.TrimLeft(d[8:10], "0"), true
+				// phones ending in 99 have no key at all: such a connection is served but never registered
+				return strings.TrimLeft(d[8:10], "0"), d[10:12] != "99"
 			}
 		}
 		l := startLive(opts)
@@ -69,6 +70,9 @@ func init() {
 				rr := rand.New(rand.NewSource(seed))
 				for i := 0; i < nact; i++ {
 					ph := phones[rr.Intn(nkeys)]
+					if opts.keyFunc != nil && rr.Intn(6) == 0 {
+						ph = append(append([]byte{}, ph[:5]...), 0x99) // the key function declines this phone
+					}
 					t := l.dial(ph, 0)
 					t.serial = rr.Intn(65000)
 					switch rr.Intn(9) {
